@@ -311,6 +311,8 @@ func catalogue() []catProgram {
 		{name: "strings", prog: catalogueStrings(), vtic: true},
 		{name: "fixed", prog: catalogueFixed(), vtic: true},
 		{name: "samepkg", prog: catalogueSamePkg()},
+		{name: "clash", prog: catalogueClash(), vtic: true},
+		{name: "comments", prog: catalogueComments()},
 		{name: "ways", prog: catalogueWays()},
 	}
 }
